@@ -943,6 +943,19 @@ def evalx(e, env, P=None):
             if not (0 <= i < len(vals)):
                 raise EvalError("index %d out of table %s[%d]" % (i, b[1], len(vals)))
             return vals[i]
+    if t == "call" and P is not None and e[1][0] == "fn" and e[1][1] in P.fns:
+        # inline a pure library function: optional single local initialised from a parameter, one return of a pure expression
+        g = P.fns[e[1][1]]
+        rets = list(g.returns())
+        others = [x for x in g.elems() if x.e[0] not in ("ret", "decl")]
+        if len(rets) == 1 and not others and len(g.params) == len(e[2]):
+            env2 = {}
+            for (pn, pt), a in zip(g.params, e[2]):
+                env2[pn] = cast_int(pt, evalx(a, env, P))
+            for x in g.elems():
+                if x.e[0] == "decl":
+                    env2[x.e[1]] = cast_int(x.e[2], evalx(x.e[3], env2, P))
+            return cast_int(g.ret, evalx(rets[0].e[1], env2, P))
     raise EvalError("unsupported node %s in %s" % (t, show(e)))
 
 
